@@ -558,7 +558,7 @@ func replay(ctx *core.Ctx, raw json.RawMessage) error {
 		return err
 	}
 	pool.defaultStack = true
-	pool.Watchdog = 90 * time.Second
+	pool.Watchdog = 45 * time.Second
 	w, res := pool.runCase(nil, rc.req())
 	w.kill()
 	if res.Infra != nil {
